@@ -306,13 +306,16 @@ impl Prims {
             "straße", "œuvre", "t-shirt", "aab", "b",
         ];
         let n = match cx.rng.below(40) {
-            0 => *cx.rng.pick(&[1023, 1024, 1025, 4096, 5000]),
+            0 => *cx.rng.pick(&[1023, 1024, 1025, 4096, 5000, 8200, 9000, 66000]),
             1..=10 => cx.rng.below(8),
             11..=20 => cx.rng.below(60),
             _ => cx.rng.below(400),
         };
         if n > 1000 {
             cx.count("stores of 1023-5000 records");
+            if n > 8000 {
+                cx.count("stores of more than 8000 records");
+            }
         }
         let k = cx.rng.range(2, words.len());
         let recs: Vec<Rec> = (0..n)
@@ -339,6 +342,30 @@ impl Prims {
                 q
             };
             self.index_check(cx, lang, &st, &recs.len(), &rgrams, &q, size, &json!(recs));
+        }
+    }
+
+    /// Long texts: queries with several hundred distinct grams against records sharing most of them.
+    fn index_long_case(&self, cx: &mut Cx, lang: &'static str) {
+        let alpha = gen::lower_alphabet(lang);
+        let pool: Vec<String> = (0..cx.rng.range(150, 400)).map(|_| gen::rand_word(&mut cx.rng, &alpha, 3, 7)).collect();
+        let n = cx.rng.range(3, 14);
+        let recs: Vec<Rec> = (0..n)
+            .map(|i| {
+                let m = cx.rng.range(60, 220);
+                ((i), (0..m).map(|_| cx.rng.pick(&pool).as_str()).collect::<Vec<_>>().join(" "), i)
+            })
+            .collect();
+        let st = St::build_sentinel(lang, &recs, 10);
+        let rgrams: Vec<BTreeSet<oracle::Gram>> = recs.iter().map(|r| oracle::grams_of(&st.tok_record(&r.1))).collect();
+        for _ in 0..4 {
+            let m = cx.rng.range(60, 180);
+            let q = (0..m).map(|_| cx.rng.pick(&pool).as_str()).collect::<Vec<_>>().join(" ");
+            let size = cx.rng.below(3);
+            if oracle::grams_of(&st.tok_query(&q)).len() > 255 {
+                cx.count("queries with more than 255 distinct grams");
+            }
+            self.index_check(cx, lang, &st, &recs.len(), &rgrams, &q, size, &json!(format!("{} records of 60-220 words from a pool of {} random words", n, pool.len())));
         }
     }
 
@@ -497,7 +524,7 @@ impl Prop for Prims {
         match self.0 {
             Which::Distance => vec![Stream::new("exhaustive", 341, 1555), Stream::new("random", 24000, 720000).miri(8)],
             Which::Jaccard => vec![Stream::new("exhaustive", 341, 1365), Stream::new("random", 32000, 1600000).miri(8)],
-            Which::Index => vec![Stream::new("stores", 6400, 320000), Stream::new("corpus", 96, 2880)],
+            Which::Index => vec![Stream::new("stores", 6400, 320000), Stream::new("corpus", 96, 2880), Stream::new("long", 320, 16000)],
             Which::Unchecked => vec![Stream::new("direct", 24000, 1200000).asan(24000).miri(12), Stream::new("store", 6400, 320000).asan(6400).miri(6)],
         }
     }
@@ -505,7 +532,7 @@ impl Prop for Prims {
         match self.0 {
             Which::Distance => vec![("exhaustive pairs", 100000, 2000000), ("prefix cells compared", 1000000, 20000000), ("pairs where a discount lowered the distance", 10000, 100000), ("random pairs beyond capacity 20", 500, 5000), ("long pairs with sampled prefix cells", 200, 2000), ("hook matrix growths", 3, 3), ("hook matrix max size", 50, 50)],
             Which::Jaccard => vec![("exhaustive pairs", 100000, 1500000), ("pairs with partial overlap", 20000, 200000), ("pairs beyond the initial capacity of 20", 500, 5000), ("random cases over a wide alphabet", 1000, 10000), ("hook jaccard accesses", 100000, 1000000)],
-            Which::Index => vec![("prepare calls", 5000, 50000), ("capped calls", 500, 5000), ("calls with ties at the cut", 100, 1000), ("size 0", 300, 3000), ("corpus prepare calls", 200, 2000), ("stores of 1023-5000 records", 50, 500)],
+            Which::Index => vec![("prepare calls", 5000, 50000), ("capped calls", 500, 5000), ("calls with ties at the cut", 100, 1000), ("size 0", 300, 3000), ("corpus prepare calls", 200, 2000), ("stores of 1023-5000 records", 50, 500), ("queries with more than 255 distinct grams", 300, 15000)],
             Which::Unchecked => vec![("direct distance/similarity calls", 20000, 200000), ("direct calls beyond capacity 20", 5000, 50000), ("store-level searches", 5000, 50000), ("store-level rounds with 127-1500 records", 200, 2000), ("store-level rounds with clear and re-add", 500, 5000), ("direct call sequences with words of 76-420 letters", 200, 2000), ("hook matrix accesses", 1000000, 10000000), ("hook matrix growths", 3, 3), ("hook matrix max size", 50, 50), ("hook counter accesses", 10000, 100000), ("hook cost accesses", 100000, 1000000), ("hook jaccard accesses", 10000, 100000)],
         }
     }
@@ -599,7 +626,8 @@ impl Prop for Prims {
                     private::check_jaccard(cx, &s1, &s2);
                 }
             }
-            (Which::Index, "stores") => self.index_case(cx, LANGS[(idx % 7) as usize]),
+            (Which::Index, "stores") => self.index_case(cx, LANGS[(idx % NL) as usize]),
+            (Which::Index, "long") => self.index_long_case(cx, LANGS[(idx % NL) as usize]),
             (Which::Index, "corpus") => {
                 let lang: &'static str = if idx % 2 == 0 { "en" } else { "none" };
                 with_corpus_store(lang, |st, recs| {
